@@ -267,7 +267,11 @@ func parseNumSites(c *Ctx, rule string, rels []string, keepFile func(string) boo
 								return true
 							}
 							if bt, ok := tv.Type.Underlying().(*types.Basic); ok && bt.Info()&types.IsInteger != 0 {
-								if w := types.SizesFor("gc", "amd64").Sizeof(bt) * 8; w < width {
+								w := types.SizesFor("gc", "amd64").Sizeof(bt) * 8
+								if cal.Name() == "ParseUint" && bt.Info()&types.IsUnsigned == 0 {
+									w-- // an unsigned parse converted to a signed type loses the top bit: 2^63.. becomes negative
+								}
+								if w < width {
 									width = w
 								}
 							}
@@ -283,7 +287,7 @@ func parseNumSites(c *Ctx, rule string, rels []string, keepFile func(string) boo
 				if eff == 0 {
 					eff = 64
 				}
-				c.R.Checkf(rule, construct, c.pos(call.Pos()), eff <= width, "%s: base %d, bit size %d; the value is then converted to a %d-bit integer — a wider parse accepts out-of-range values and truncates them silently", core.ExprStr(call), base, bits, width)
+				c.R.Checkf(rule, construct, c.pos(call.Pos()), eff <= width, "%s: base %d, bit size %d; the value is then converted to an integer with %d value bits — a wider parse accepts out-of-range values and truncates (or, for an unsigned parse into a signed type, negates) them silently", core.ExprStr(call), base, bits, width)
 				return true
 			})
 		}
